@@ -13,6 +13,7 @@ import (
 	"github.com/vektah/gqlparser/v2/formatter"
 	"github.com/vektah/gqlparser/v2/parser"
 	"github.com/vektah/gqlparser/v2/validator"
+	"github.com/vektah/gqlparser/v2/verifhook"
 
 	"verif/mc/explore"
 	"verif/mc/gen"
@@ -210,6 +211,18 @@ func c13Loaded(c *explore.Ctx, s *explore.SubStats, text string, cfgs []sfmtCfg)
 			continue
 		}
 		s.Validated++
+		// the text must not depend on map iteration order (the formatter collects type and
+		// directive names from maps): descending and rotated key orders give the same text
+		for _, pol := range []int{1, 3} {
+			verifhook.OrderPolicy = pol
+			var alt string
+			ra := guarded(0, 0, func() { alt = formatSchema(sch, cfg) })
+			verifhook.OrderPolicy = 0
+			if !ra.Panicked && alt != out {
+				bad("sfmt/map-order "+cc, fmt.Sprintf("FormatSchema prints a different text under another map iteration order (policy %d)", pol), out, alt)
+				break
+			}
+		}
 		load := func(t string) (*ast.Schema, error) {
 			if cfg.Builtin {
 				return validator.LoadSchema(&ast.Source{Input: t, Name: "formatted.graphql", BuiltIn: true})
